@@ -407,8 +407,8 @@ func nativeTableToResp2(val map[string]any) (a respArray) {
 
 func nativeTableToResp3(val map[string]any) (m respMap) {
 	m = newRespMapSized(len(val))
-	for k, v := range val {
-		m.set(nativeValueToResp(k), nativeValueToResp(v))
+	for _, k := range simKeys(val, func(a, b string) bool { return a < b }) {
+		m.set(nativeValueToResp(k), nativeValueToResp(val[k]))
 	}
 	return
 }
@@ -465,7 +465,7 @@ func resp3ArrayToResp2(val respArray) (a respArray) {
 
 func resp3SetToResp2(val respSet) (a respArray) {
 	a = make([]respValue, 0, len(val))
-	for e := range val {
+	for _, e := range simKeys(val, simRespLess) {
 		a = append(a, resp3To2(e))
 	}
 	return
@@ -488,8 +488,8 @@ func nativeStringTableToResp(val map[string]string) (a respArray) {
 
 func nativeMapToResp(val map[any]any) (m respMap) {
 	m = newRespMap()
-	for k, v := range val {
-		m.set(nativeValueToResp(k), nativeValueToResp(v))
+	for _, k := range simKeys(val, func(a, b any) bool { return fmt.Sprint(a) < fmt.Sprint(b) }) {
+		m.set(nativeValueToResp(k), nativeValueToResp(val[k]))
 	}
 	return
 }
